@@ -144,9 +144,9 @@ type sessionState struct {
 
 var sessions = map[string]*sessionState{}
 
-func sessionFor(cfg runner.Config) (*sessionState, error) {
+func sessionFor(cfg runner.Config, fresh bool) (*sessionState, error) {
 	k := cfg.String()
-	if s := sessions[k]; s != nil {
+	if s := sessions[k]; s != nil && !fresh {
 		return s, nil
 	}
 	st := &sessionState{}
@@ -167,7 +167,9 @@ func sessionFor(cfg runner.Config) (*sessionState, error) {
 	if st.nested, err = st.bsess.Run(ctx, argFunc, 1, "n", 0.5, []byte("x"), []int{1}, map[string]int{"n": 1}, structOf(1), &ArgStruct{A: 1}, 1, st.base); err != nil {
 		return nil, fmt.Errorf("nested run: %v", err)
 	}
-	sessions[k] = st
+	if !fresh {
+		sessions[k] = st
+	}
 	return st, nil
 }
 
@@ -189,10 +191,6 @@ func runArgs(a Args) (err error, encodable bool) {
 			err = fmt.Errorf("panic: %v\n%s", r, stack)
 		}
 	}()
-	st, e := sessionFor(a.Cfg)
-	if e != nil {
-		return fmt.Errorf("harness: %v", e), true
-	}
 	ctx := context.Background()
 	var p *ArgStruct
 	if a.P != 0 {
@@ -201,6 +199,13 @@ func runArgs(a Args) (err error, encodable bool) {
 	}
 	any, anyOK := anyOf(a.Any)
 	encodable = anyOK && p != nil
+	// RPC counts are only meaningful in a session without in-flight work of earlier (failed) runs:
+	// cases that may fail use a session of their own, whose earlier runs all succeeded.
+	mayFail := a.Cfg.Exec != "local" && (!encodable || a.Sl == 0)
+	st, e := sessionFor(a.Cfg, mayFail)
+	if e != nil {
+		return fmt.Errorf("harness: %v", e), true
+	}
 	var sl bigslice.Slice
 	var slRows []string
 	text := render(a.I, a.S, a.F, a.B, a.Is, a.M, structOf(a.St), p, any)
